@@ -17,9 +17,12 @@ Cfg(n, b, e, h) == [n |-> n, cap |-> 10 \div n, blocks |-> b, endkind |-> e, hdr
                     stopOnCancel |-> TRUE, sepErr |-> TRUE, eofCtx |-> TRUE,
                     allowCancel |-> FALSE, allowClose |-> FALSE, allowHeader |-> FALSE, maxErr |-> 0]
 BlockSeqs == { <<D(2), D(0), D(1)>>, <<D(1), D(1), D(1), D(2)>>, <<D(0), D(2)>>, <<D(1), D(2), D(0), D(1), D(1)>>,
-               <<D(1), BAD, D(1)>>, <<D(2), D(1), TYP, D(1)>>, <<D(1), D(0), D(0), D(2), D(1), D(1)>> }
+               <<D(1), BAD, D(1)>>, <<D(2), D(1), TYP, D(1)>>, <<D(1), D(0), D(0), D(2), D(1), D(1)>>,
+               \* long enough to fill a per-worker queue (capacity 10 \div n) while its worker is not scheduled
+               <<D(1), D(1), D(0), D(1), D(2), D(1), D(1), D(1)>>,
+               <<D(1), D(1), D(1), D(1), D(1), D(1), D(1), D(1), D(1), D(1), D(1), D(1), D(1)>> }
 CONSTANT Tier     \* "quick" | "thorough"
-Ns == IF Tier = "quick" THEN {1, 2, 3, 11} ELSE {1, 2, 3, 4, 5, 11, 16, 32}
+Ns == IF Tier = "quick" THEN {1, 2, 3, 6, 11} ELSE {1, 2, 3, 4, 5, 6, 10, 11, 16, 32}
 GenConfigs == { Cfg(n, b, e, h) : n \in Ns, b \in BlockSeqs, e \in {"eof", "trunc"}, h \in {"ok", "none"} }
 
 GenInit == Init /\ sched = << >> /\ cutAt = 0
@@ -41,6 +44,9 @@ Emit == Live \/ PrintT(<<"CASE", ToJson([kind |-> "forced",
 WalkCfg(n, b, e, h) == [n |-> n, blocks |-> b, endkind |-> e, hdr |-> h]
 WalkConfigs == { WalkCfg(n, b, e, h) : n \in Ns, b \in BlockSeqs, e \in {"eof", "trunc"}, h \in {"ok", "none"} }
                \cup { WalkCfg(n, <<D(1), D(1)>>, "eof", h) : n \in {1, 2}, h \in {"trunc", "feature", "empty"} }
+\* real-concurrency (jitter) runs: long files, so that a slow decoder's queue (capacity 10 \div n) fills while others have room
+LongSeqs == { [i \in 1 .. 30 |-> D(1)], [i \in 1 .. 24 |-> D(IF i % 5 = 0 THEN 0 ELSE 1 + (i % 2))] }
+JitterConfigs == { WalkCfg(n, b, "eof", "ok") : n \in {2, 3, 4, 5, 6, 11}, b \in LongSeqs }
 RECURSIVE Rep(_, _)
 Rep(x, k) == IF k = 0 THEN << >> ELSE <<x>> \o Rep(x, k - 1)
 Tails == { << >>, <<"scan">>, <<"err">>, <<"scan", "err">>, <<"err", "scan", "err">>, <<"close", "err">>, <<"scan", "close", "scan">>,
